@@ -418,8 +418,24 @@ def _r2(ctx):
                     continue
                 d = before[-1]
                 init = d.group(2)
-                zero = init is not None and re.fullmatch(r"\s*0(\.0*)?f?\s*", init or "x") is not None
-                same_nest = _loops_enclosing(spans, d.start()) == _loops_enclosing(spans, m.start())
+                # `= {0.0}`, `= {0}`, `= {}` (C++ value-initialisation) all zero the whole array
+                zero = init is not None and re.fullmatch(r"\s*(0(\.0*)?f?)?\s*", init) is not None
+                zstart = d.start()
+                between = body[d.end():m.start()]
+                if not zero:
+                    # zeroed by a statement between the declaration and the call: memset / std::fill / std::fill_n / an element loop
+                    a_ = re.escape(arr)
+                    zs = list(re.finditer(r"\bmemset\s*\(\s*" + a_ + r"\s*,\s*0\s*,\s*sizeof\s*\(?\s*" + a_ + r"\s*\)?\s*\)\s*;"
+                                          r"|\b(?:std::)?fill\s*\(\s*" + a_ + r"\s*,\s*" + a_ + r"\s*\+\s*\w+\s*,\s*0(\.0*)?f?\s*\)\s*;"
+                                          r"|\b(?:std::)?fill_n\s*\(\s*" + a_ + r"\s*,\s*\w+\s*,\s*0(\.0*)?f?\s*\)\s*;"
+                                          r"|\bfor\s*\(\s*(?:int|size_t|unsigned)\s+(\w+)\s*=\s*0\s*;\s*\3\s*<\s*\w+\s*;\s*(?:\+\+\3|\3\+\+)\s*\)\s*\{?\s*" + a_ + r"\s*\[\s*\3\s*\]\s*=\s*0(\.0*)?f?\s*;", between))
+                    if zs:
+                        zero, zstart = True, d.end() + zs[-1].start()
+                    elif re.search(r"\b" + a_ + r"\b", between):
+                        ctx.unrec("R2", key, (rel, 0), f"`{arr}` has no zero initialiser and is handled between its declaration and the call in a way this rule cannot read: "
+                                  + re.sub(r"\s+", " ", between.strip())[:100])
+                        continue
+                same_nest = _loops_enclosing(spans, zstart) == _loops_enclosing(spans, m.start())
                 # storage duration: `static` / `thread_local` is initialised ONCE, not on every call
                 stmt_start = max(body.rfind(";", 0, d.start()), body.rfind("{", 0, d.start()), body.rfind("}", 0, d.start())) + 1
                 quals = set(re.findall(r"\b(static|thread_local|extern)\b", body[stmt_start:d.start()]))
@@ -448,28 +464,94 @@ def _mentions_ode(e):
     return False
 
 
+_WS_FILTERS = {"stmwrap", "indent", "trim", "wordwrap", "safe", "string"}               # change white space / nothing
+_LOSSY_FILTERS = {"reject", "select", "rejectattr", "selectattr", "unique", "sort", "reverse", "batch", "slice", "first", "last", "random",
+                  "replace", "truncate", "lower", "upper", "title", "capitalize", "default", "d", "striptags", "urlize", "abs", "round", "int", "float"}
+_ODE = ("name", "ode")
+_LOOPIDX = (("attr", ("name", "loop"), "index0"), ("bin", "-", ("attr", ("name", "loop"), "index"), ("const", 1)))
+
+
+def _paste(it):
+    """How one loop of a rate function prints a list of ode: ("ok" | "wrong" | "unknown", list expression | None, why).  The accepted
+    forms, by meaning: every entry of the list once, in order, changed by white-space filters only --
+    `for x in L: {{ x | stmwrap }}`, `for i in range(L | length): {{ L[i] | .. }}`, `for x in L: {{ L[loop.index0] }}` / `L[loop.index - 1]`."""
+    seq, fs = J.unfilter(it[2])
+    idxvar = None
+    b = match_range_len(it[2])
+    if b is not None:
+        seq, fs, idxvar = b, [], it[1]
+    if seq[0] == "item" and seq[2][0] == "slice":
+        return "wrong", seq[1], f"only the slice {J.show(seq[2])} of the list is pasted"
+    for f in fs:
+        if f[0] in _LOSSY_FILTERS:
+            return "wrong", seq, f"the list is passed through `{f[0]}` before it is pasted"
+        if f[0] != "list":
+            return "unknown", seq, f"the list is passed through the filter `{f[0]}`"
+    if it[7] is not None:
+        return "wrong", seq, f"entries are pasted only when `{J.show(it[7])}` holds"
+    if any(x[0] not in ("out", "text", "set") for x in it[3]):
+        return "unknown", seq, "the loop body holds control items"
+    outs = [x for x in it[3] if x[0] == "out" and not (x[1][0] == "const" and not str(x[1][1]).strip())]
+    if len(outs) != 1:
+        return "unknown", seq, f"the loop body prints {len(outs)} expressions"
+    base, ofs = J.unfilter(outs[0][1])
+    elem = {it[1]} if idxvar is None else set()
+    elem |= {("item", seq, idxvar)} if idxvar is not None else {("item", seq, i_) for i_ in _LOOPIDX}
+    if base not in elem:
+        return "unknown", seq, f"the loop prints `{J.show(outs[0][1])}`, not the entry itself"
+    for f in ofs:
+        if f[0] in _LOSSY_FILTERS:
+            return "wrong", seq, f"every entry is passed through `{f[0]}`, which can change the statement"
+        if f[0] not in _WS_FILTERS:
+            return "unknown", seq, f"every entry is passed through the filter `{f[0]}`"
+    return "ok", seq, ""
+
+
+def match_range_len(e):
+    """L when e is range(L | length) / range(0, L | length) / range(len-like call), else None"""
+    if e[0] == "call" and e[1] == ("name", "range") and not e[3] and 1 <= len(e[2]) <= 2 and (len(e[2]) == 1 or e[2][0] == ("const", 0)):
+        n_ = e[2][-1]
+        if n_[0] == "filter" and n_[1] in ("length", "count") and not n_[3] and not n_[4]:
+            return n_[2]
+    return None
+
+
 def _r3(ctx):
     # (a) the rate functions paste the statements once, unfiltered
     n = 0
     for label, rel, cfg in RATE_TEMPLATES:
         ctx.saw(rel)
-        items = J.flatten(ctx.tree, rel, cfg)
+        # {% set %} aliases and the parameters of expanded macros are replaced by the expressions they stand for
+        items = J.propagate_sets(J.flatten(ctx.tree, rel, cfg))
         sk = Skel(items)
         for fname, field in (("EvalRates", "rateeqns"), ("EvalHeatingRates", "hrateeqns"), ("EvalCoolingRates", "crateeqns")):
             key = f"{label}:{fname}:ode.{field}"
+            want = ("attr", _ODE, field)
             loops = [it for it, off in sk.items_in(fname) if it[0] == "for" and _mentions_ode(it[2])]
-            if len(loops) != 1:
-                (ctx.bad if loops else ctx.missing)("R3", key, (rel, 0), f"{fname} pastes {len(loops)} ode.* lists, expected exactly ode.{field}")
+            inside = {id(x) for lp_ in loops for x, _ in J.walk_items(lp_[3] + lp_[4])}
+            loose = [it for it, off in sk.items_in(fname) if it[0] == "out" and _mentions_ode(it[1]) and id(it) not in inside]
+            if not loops and not loose:
+                ctx.missing("R3", key, (rel, 0), f"{fname} pastes no ode.* list, expected exactly ode.{field}")
+                continue
+            n += 1
+            if loose or len(loops) != 1:
+                # pasted without a loop (`{{ L | map(..) | join }}`) or by several loops: each statement once, in order, is not decided here
+                if len(loops) > 1 and all(_paste(it)[0] == "ok" for it in loops):
+                    ctx.bad("R3", key, (rel, loops[1][5]), f"{fname} pastes {len(loops)} ode.* lists, expected exactly ode.{field}")
+                else:
+                    ctx.unrec("R3", key, (rel, (loose or loops)[0][2 if loose else 5]), f"cannot see that {fname} prints every entry of ode.{field} exactly once: "
+                              + "; ".join(J.show(x[1] if x[0] == "out" else x[2])[:60] for x in (loose + loops)))
                 continue
             it = loops[0]
-            outs = [x for x in it[3] if x[0] == "out" and x[1] != ("const", "")]
-            good = it[2] == ("attr", ("name", "ode"), field) and it[7] is None and len(outs) == 1
-            if good:
-                base, fs = J.unfilter(outs[0][1])
-                good = base == it[1] and all(f[0] == "stmwrap" for f in fs)
-            ctx.check(good, "R3", key, (rel, it[5]), f"{fname} outputs every entry of ode.{field} once, in order, through whitespace-only filters",
-                      expected=f"for assign in ode.{field}: {{{{ assign | stmwrap }}}}", found=J.show(it[2]) + " -> " + "; ".join(J.show(o[1]) for o in outs))
-            n += 1
+            verdict, seq, why = _paste(it)
+            found = J.show(it[2]) + " -> " + "; ".join(J.show(o[1]) for o in it[3] if o[0] == "out")
+            if verdict == "unknown":
+                ctx.unrec("R3", key, (rel, it[5]), f"cannot see that {fname} prints every entry of ode.{field} exactly once: {why}")
+            elif verdict == "wrong" or seq != want:
+                ctx.bad("R3", key, (rel, it[5]), f"{fname} does not output every entry of ode.{field} once, in order, unchanged: " + (why or f"the list pasted is {J.show(seq)}"),
+                        expected=f"for assign in ode.{field}: {{{{ assign | stmwrap }}}}", found=found)
+            else:
+                ctx.ok("R3", key, (rel, it[5]), f"{fname} outputs every entry of ode.{field} once, in order, through whitespace-only filters")
     ctx.floor("R3", "rate functions", n, 9)
     # (b) no other assignment to k / kh / kc in any back-end template
     hits = 0
@@ -964,4 +1046,26 @@ BENIGN += [
     {"name": "uclchem-freeze-stores-in-arms", "file": UCL, "old": _U_FREEZE_OLD, "new": _u_freeze("0.0", "30.0")},
     {"name": "native-window-zip-setattr", "file": "naunet/reactions/reaction.py", "old": _U_NATIVE_OLD,
      "new": '        for attrname, text in zip(("alpha", "beta", "gamma", "temp_min", "temp_max"), (a, b, c, lt, ut)):\n            setattr(self, attrname, float(text))\n'},
+]
+# ---- wave 2: template spellings of the paste loop and of the zeroing of k
+_J_LOOP = '    {% for assign in ode.rateeqns -%}\n        {{ assign | stmwrap(80, 8) }}\n        {{ "" }}\n    {% endfor %}\n'
+_FEX_K = "    realtype k[NREACTIONS] = {0.0};\n    EvalRates(k, y, u_data);"
+_KERNEL_K = "        realtype k[NREACTIONS] = {0.0};\n        EvalRates(k, y_cur, udata);"
+MUTANTS += [
+    {"name": "paste-loop-list-through-unique", "file": RATES, "old": "{% for assign in ode.rateeqns -%}", "new": "{% for assign in ode.rateeqns | unique -%}", "rules": ["R3"]},
+    {"name": "paste-loop-by-index-other-list", "file": RATES, "old": _J_LOOP, "new": '    {% for i in range(ode.hrateeqns | length) -%}\n        {{ ode.hrateeqns[i] | stmwrap(80, 8) }}\n        {{ "" }}\n    {% endfor %}\n', "rules": ["R3"]},
+    {"name": "paste-loop-conditional", "file": RATES, "old": "{% for assign in ode.rateeqns -%}", "new": '{% for assign in ode.rateeqns if "if (" not in assign -%}', "rules": ["R3"]},
+    {"name": "kernel-k-memset-hoisted", "edits": [
+        {"file": FEX, "old": _KERNEL_K, "new": "        EvalRates(k, y_cur, udata);"},
+        {"file": FEX, "old": "    int gs   = blockDim.x * gridDim.x;\n\n    for (int cur = tidx; cur < nsystem; cur += gs) {\n        int yistart            = cur * NEQUATIONS;\n        realtype *y_cur        = y + yistart;\n        NaunetData *udata",
+         "new": "    int gs   = blockDim.x * gridDim.x;\n    realtype k[NREACTIONS];\n    memset(k, 0, sizeof(k));\n\n    for (int cur = tidx; cur < nsystem; cur += gs) {\n        int yistart            = cur * NEQUATIONS;\n        realtype *y_cur        = y + yistart;\n        NaunetData *udata"}], "rules": ["R2"]},
+]
+BENIGN += [
+    {"name": "paste-loop-over-set-alias", "file": RATES, "old": _J_LOOP, "new": '    {% set eqns = ode.rateeqns %}\n    {% for assign in eqns -%}\n        {{ assign | stmwrap(80, 8) }}\n        {{ "" }}\n    {% endfor %}\n'},
+    {"name": "paste-loop-by-index", "file": RATES, "old": _J_LOOP, "new": '    {% for i in range(ode.rateeqns | length) -%}\n        {{ ode.rateeqns[i] | stmwrap(80, 8) }}\n        {{ "" }}\n    {% endfor %}\n'},
+    {"name": "paste-loop-by-loop-index", "file": RATES, "old": _J_LOOP, "new": '    {% for assign in ode.rateeqns -%}\n        {{ ode.rateeqns[loop.index - 1] | stmwrap(80, 8) }}\n        {{ "" }}\n    {% endfor %}\n'},
+    {"name": "paste-loop-in-macro", "file": RATES, "old": _J_LOOP, "new": '    {% macro paste(eqns) %}{% for assign in eqns -%}\n        {{ assign | stmwrap(80, 8) }}\n        {{ "" }}\n    {% endfor %}{% endmacro %}\n    {{ paste(ode.rateeqns) }}\n'},
+    {"name": "fex-k-value-initialised", "file": FEX, "old": _FEX_K, "new": "    realtype k[NREACTIONS] = {};\n    EvalRates(k, y, u_data);"},
+    {"name": "fex-k-memset", "file": FEX, "old": _FEX_K, "new": "    realtype k[NREACTIONS];\n    memset(k, 0, sizeof(k));\n    EvalRates(k, y, u_data);"},
+    {"name": "kernel-k-fill-in-loop", "file": FEX, "old": _KERNEL_K, "new": "        realtype k[NREACTIONS];\n        std::fill(k, k + NREACTIONS, 0.0);\n        EvalRates(k, y_cur, udata);"},
 ]
